@@ -407,7 +407,7 @@ theorem bisect_spec (sizes : List Nat) (t idx : Nat) (h1 : t ≤ idx) (h2 : idx 
       have := ih (t + l) (by omega) (by simp at h2; omega)
       simp only [List.take_succ_cons, List.sum_cons]
       omega
-    · simp only [hl, decide_false, List.length_nil]
+    · simp only [hl, decide_false]
       simp; omega
 
 theorem takeWhile_of_all {α} (p : α → Bool) (l : List α) (h : ∀ v ∈ l, p v = true) : l.takeWhile p = l := by
@@ -504,6 +504,72 @@ theorem concat_rejects_above (sizes : List Nat) (idx : Int) (h : (sizes.sum : In
   simp only [h0, false_and, if_false, cumsum]
   rw [bisect_high sizes 0 idx (by simpa using h)]
   simp
+
+
+/-- `x in range(a, b, st)` for `st > 0` is the arithmetic test Python performs -/
+theorem mem_pyRange_pos (a b st x : Int) (hst : 0 < st) :
+    x ∈ pyRange a b st ↔ a ≤ x ∧ x < b ∧ (x - a) % st = 0 := by
+  unfold pyRange
+  rw [List.mem_map]
+  constructor
+  · rintro ⟨k, hk, rfl⟩
+    rw [List.mem_range] at hk
+    have := rangeLen_pos hst hk
+    refine ⟨this.1, this.2, ?_⟩
+    rw [show a + (k : Int) * st - a = (k : Int) * st by omega]
+    exact Int.mul_emod_left _ _
+  · rintro ⟨h1, h2, h3⟩
+    have hd : st ∣ x - a := Int.dvd_of_emod_eq_zero h3
+    obtain ⟨q, hq⟩ := hd
+    have hq0 : 0 ≤ q := by
+      rcases Int.lt_or_le q 0 with h | h
+      · have : st * q < 0 := Int.mul_neg_of_pos_of_neg hst h
+        omega
+      · exact h
+    refine ⟨q.toNat, ?_, ?_⟩
+    · rw [List.mem_range]
+      unfold rangeLen
+      have hab : a < b := by omega
+      simp only [hst, hab, if_true]
+      have : q ≤ (b - a - 1) / st := by
+        apply Int.le_ediv_of_mul_le hst
+        rw [Int.mul_comm]; omega
+      omega
+    · rw [Int.toNat_of_nonneg hq0, Int.mul_comm]; omega
+
+theorem mem_pyRange_neg (a b st x : Int) (hst : st < 0) :
+    x ∈ pyRange a b st ↔ b < x ∧ x ≤ a ∧ (a - x) % (-st) = 0 := by
+  unfold pyRange
+  rw [List.mem_map]
+  constructor
+  · rintro ⟨k, hk, rfl⟩
+    rw [List.mem_range] at hk
+    have := rangeLen_neg hst hk
+    refine ⟨this.1, this.2, ?_⟩
+    rw [show a - (a + (k : Int) * st) = (k : Int) * (-st) by rw [Int.mul_neg]; omega]
+    exact Int.mul_emod_left _ _
+  · rintro ⟨h1, h2, h3⟩
+    have hs : 0 < -st := by omega
+    have hd : -st ∣ a - x := Int.dvd_of_emod_eq_zero h3
+    obtain ⟨q, hq⟩ := hd
+    have hq0 : 0 ≤ q := by
+      rcases Int.lt_or_le q 0 with h | h
+      · have : -st * q < 0 := Int.mul_neg_of_pos_of_neg hs h
+        omega
+      · exact h
+    refine ⟨q.toNat, ?_, ?_⟩
+    · rw [List.mem_range]
+      unfold rangeLen
+      have h0 : ¬ (0 < st) := by omega
+      have hab : b < a := by omega
+      simp only [h0, hst, hab, if_true, if_false]
+      have : q ≤ (a - b - 1) / (-st) := by
+        apply Int.le_ediv_of_mul_le hs
+        rw [Int.mul_comm]; omega
+      omega
+    · rw [Int.toNat_of_nonneg hq0]
+      have : q * st = -(-st * q) := by rw [Int.neg_mul, Int.neg_neg, Int.mul_comm]
+      omega
 
 
 end DirectVerif.Dataset
